@@ -16,8 +16,8 @@ PROP = dict(
          "entry point int16/int24/float, seeded signal family) coded for 1.5 s by the tree codec and by the frozen codec on the same input; or a surround "
          "(family 1, 3-8 ch) / family 255 multistream codec with a distinct tone per channel. Non-trivial = SNR measured on >= 1 s of non-silent signal "
          "(every case); distinct = class x seed x (Fs, duration, format).",
-    required_labels={"any": {"c04_fidelity/delay-checked": 20, "c04_fidelity/delay-checked-exact": 8, "c04_fidelity/gain-checked": 30, "c04_fidelity/band-energy-checked": 50,
-                             "c04_fidelity/channel-identity-checked": 3, "c04_fidelity/ms-identity-checked": 5, "c04_fidelity/mode:silk": 10,
+    required_labels={"any": {"c04_fidelity/delay-checked": 20, "c04_fidelity/delay-checked-exact": 8, "c04_fidelity/gain-checked": 30, "c04_fidelity/band-energy-checked": 20,
+                             "c04_fidelity/channel-identity-checked": 3, "c04_fidelity/ms-identity-checked": 5, "c04_fidelity/mode:silk": 3,
                              "c04_fidelity/mode:hybrid": 5, "c04_fidelity/mode:celt": 20}},
     assumptions=["Numeric bounds are relative to the frozen codec (pinned commit, float build) run on the same input: SNR >= min(frozen SNR, 30 dB) - 4 dB (calibration over 3188 channel measurements: worst tree-minus-frozen difference -1.8 dB below 30 dB and -4.3 dB "
                  "at 35-45 dB, where pure tones make the figure hypersensitive), per-band energy within 6 dB (observed <= 0.83 dB, one 3-4 dB outlier on a click train; click trains are exempt from the band clause), gain within 0.03 (observed max 0.006), delay minus reported lookahead within 0.3 sample; absolute class floors come from calib/C04.json.",
